@@ -50,7 +50,7 @@ pub struct LockServerConfig {
 }
 //!end
 }
-pub mod graph {
+pub mod graph_err {
     use vstd::prelude::*;
 //!type src/core/graph.rs GraphError
 pub enum GraphError {
@@ -85,7 +85,7 @@ pub enum MonorailError {
 }
 //!end
 // conversions used by `?` — mirror core/error.rs (ASSUMED: not extracted)
-impl From<graph::GraphError> for MonorailError { #[verifier::external_body] fn from(error: graph::GraphError) -> (r: Self) ensures r is Graph { MonorailError::Graph(error) } }
+impl From<graph_err::GraphError> for MonorailError { #[verifier::external_body] fn from(error: graph_err::GraphError) -> (r: Self) ensures r is Graph { MonorailError::Graph(error) } }
 impl From<String> for MonorailError { #[verifier::external_body] fn from(error: String) -> (r: Self) ensures r is Generic { MonorailError::Generic(error) } }
 impl From<&str> for MonorailError { #[verifier::external_body] fn from(error: &str) -> (r: Self) ensures r is Generic { unimplemented!() } }
 impl From<std::io::Error> for MonorailError { #[verifier::external_body] fn from(error: std::io::Error) -> (r: Self) ensures r is Io { MonorailError::Io(error) } }
@@ -489,4 +489,42 @@ impl BufReader {
                 && (old(self).pos < old(w).fs[old(self).p].len() ==> b@.len() > 0),
             r is Err ==> final(w).io_faults > old(w).io_faults,
     { unimplemented!() }
+}
+
+// ---------------- byte-level string operations and path prefixes (units index, analyze) ----------------
+pub mod strx {
+    use vstd::prelude::*;
+    use super::*;
+    // R12 targets inside is_path_prefix: str::starts_with(&str), str::len, str::ends_with(char), str::as_bytes over the UTF-8 bytes
+    #[verifier::external_body] pub fn starts_with(s: &str, p: &str) -> (r: bool) ensures r == bp(p@, s@) { unimplemented!() }
+    #[verifier::external_body] pub fn ends_with_char(s: &str, c: char) -> (r: bool)
+        ensures c == '/' ==> r == (str_bytes(s@).len() > 0 && str_bytes(s@)[str_bytes(s@).len() - 1] == 47u8) { unimplemented!() }
+    #[verifier::external_body] pub fn len(s: &str) -> (r: usize) ensures r == str_bytes(s@).len() { unimplemented!() }
+    #[verifier::external_body] pub fn as_bytes(s: &str) -> (r: &[u8]) ensures r@ == str_bytes(s@) { unimplemented!() }
+}
+// byte prefix, and whole-component path prefix (DESIGN.md section 5)
+pub open spec fn bp(a: Seq<char>, b: Seq<char>) -> bool { str_bytes(a).len() <= str_bytes(b).len() && str_bytes(b).subrange(0, str_bytes(a).len() as int) == str_bytes(a) }
+pub open spec fn pp(a: Seq<char>, b: Seq<char>) -> bool {
+    bp(a, b) && (str_bytes(a).len() == str_bytes(b).len() || (str_bytes(a).len() > 0 && str_bytes(a)[str_bytes(a).len() - 1] == 47u8) || str_bytes(b)[str_bytes(a).len() as int] == 47u8)
+}
+// trie-rs: a set of keys; common_prefix_search(q) yields exactly the stored keys that are BYTE prefixes of q, each once
+pub mod trie_rs {
+    use vstd::prelude::*;
+    use super::*;
+    pub struct Trie<T> { pub ghost keys: Set<Seq<char>>, pub _t: ::std::marker::PhantomData<T> }
+    pub struct TrieBuilder<T> { pub ghost keys: Set<Seq<char>>, pub _t: ::std::marker::PhantomData<T> }
+    impl<T> TrieBuilder<T> {
+        #[verifier::external_body] pub fn new() -> (r: Self) ensures r.keys == Set::<Seq<char>>::empty() { unimplemented!() }
+        #[verifier::external_body] pub fn push<K: PathLike>(&mut self, k: K) ensures final(self).keys == old(self).keys.insert(k.pview()) { unimplemented!() }
+        #[verifier::external_body] pub fn build(self) -> (r: Trie<T>) ensures r.keys == self.keys { unimplemented!() }
+    }
+    impl<T> Trie<T> {
+        // R12 target: the iterator returned by common_prefix_search, collected
+        #[verifier::external_body] pub fn common_prefix_search_vec(&self, q: &str) -> (r: Vec<String>)
+            ensures
+                forall|i: int| 0 <= i < r@.len() ==> self.keys.contains(#[trigger] r@[i]@) && bp(r@[i]@, q@),
+                forall|k: Seq<char>| self.keys.contains(k) && bp(k, q@) ==> exists|i: int| 0 <= i < r@.len() && #[trigger] r@[i]@ == k,
+                forall|i: int, j: int| #![trigger r@[i], r@[j]] 0 <= i < j < r@.len() ==> r@[i]@ != r@[j]@,
+        { unimplemented!() }
+    }
 }
